@@ -1970,12 +1970,23 @@ pub fn c11(ctx: &Ctx) -> Report {
         cfg.profile.wrap = wrap_ok && k % 2 == 1;
         if k % 3 == 2 {
             let cb = (sc.vols[0].layout.bpc * 512) as usize;
-            let (v, d, f) = (sc.id_offset, sc.id_offset + 1, sc.id_offset + 2);
+            let (v, d, f) = (sc.id_offset, sc.id_offset.wrapping_add(1), sc.id_offset.wrapping_add(2));
             let data: Vec<u8> = (0..3 * cb + 100).map(|i| (i * 7 + k) as u8).collect();
             cfg.script = Some(vec![Op::OpenVolume(sc.vols[0].slot), Op::OpenRoot(v), Op::OpenFile(d, "RT.BIN".into(), Mode::ReadWriteCreateOrTruncate), Op::Write(f, data),
                 Op::SeekStart(f, 0), Op::Read(f, 3 * cb + 100), Op::SeekStart(f, 10), Op::Read(f, cb + 5), Op::Length(f), Op::SeekStart(f, (2 * cb - 3) as u32), Op::Read(f, 700),
                 Op::List(d), Op::Find(d, "RT.BIN".into()), Op::ListLfn(d, 64), Op::Flush(f), Op::SeekStart(f, 0), Op::Read(f, 2 * cb), Op::SeekEnd(f, 0), Op::Write(f, vec![7; 30]), if wrap_ok && k % 2 == 1 { Op::WCloseFile(f) } else { Op::CloseFile(f) }, Op::Find(d, "RT.BIN".into()),
-                Op::OpenFile(d, "RT.BIN".into(), Mode::ReadOnly), Op::Length(LAST_FILE), Op::CloseFile(LAST_FILE), Op::CloseDir(d), Op::CloseVolume(v), Op::HasOpen]);
+                Op::OpenFile(d, "RT.BIN".into(), Mode::ReadOnly), Op::Length(LAST_FILE), Op::CloseFile(LAST_FILE)]);
+            // the directory is then grown past a cluster boundary (empty files: one slot each), so that the listing
+            // and the lookup follow the directory's chain through the FAT - the device call between two clusters
+            // of a directory walk gets its fault like every other one
+            let mut ops = cfg.script.take().unwrap();
+            let nfill = 16 * sc.vols[0].layout.bpc as usize + 1;
+            for i in 0..nfill {
+                ops.push(Op::OpenFile(d, format!("FL{i:03}.E"), Mode::ReadWriteCreate));
+                ops.push(Op::CloseFile(LAST_FILE));
+            }
+            ops.extend([Op::List(d), Op::Find(d, format!("FL{:03}.E", nfill - 1)), Op::ListLfn(d, 64), Op::Find(d, "NOSUCH.X".into()), Op::CloseDir(d), Op::CloseVolume(v), Op::HasOpen]);
+            cfg.script = Some(ops);
         }
         let mut r1 = rng.fork(k as u64);
         let base = run_case(&mut r1, &sc, &cfg, &mut model, &mut rep, &format!("c11/{}/{k}/base", ctx.seed));
@@ -2008,7 +2019,17 @@ pub fn c11(ctx: &Ctx) -> Report {
         if points.len() > max_points {
             // keep an even spread
             let stride = points.len() as f64 / max_points as f64;
+            let all = points.clone();
             points = (0..max_points).map(|j| points[(j as f64 * stride) as usize]).collect();
+            // every device call of the read-only directory calls (listing, lookup) gets its fault whatever the
+            // spread keeps: a failure between two clusters of a directory walk is one call among hundreds
+            let mut extra = 0usize;
+            for pt in all {
+                if matches!(base.ops[pt.0], Op::List(..) | Op::ListLfn(..) | Op::Find(..)) && !points.contains(&pt) && extra < budget(ctx, 120, 600) {
+                    points.push(pt);
+                    extra += 1;
+                }
+            }
         }
         for (pi, pt) in points.iter().enumerate() {
             let mut cfg2 = cfg.clone();
